@@ -21,6 +21,7 @@ FloatLike(r) == r.floatkind # "none"
 BoolOk(r) == r.boolv = BoolParse(r.tok, r.strict)
 StrOk(r) == IF StrAccept(r.tok, r.style, r.tag, r.noschema, FloatLike(r)) THEN r.strv.c = "S" /\ r.strv.s = r.tok
             ELSE r.strv.c = "ERR"
+CharOk(r) == IF CharAccept(r.tok, r.style, r.tag, r.noschema, FloatLike(r), r.nchars) THEN r.charv = "ok:" \o r.tok ELSE r.charv = "err"
 AnyOk(r) ==
   LET fk == IF r.floatkind = "finite" THEN "finite" ELSE IF r.floatkind = "none" THEN "none" ELSE "nonfinite"
       k == AnyKind(r.tok, r.style, r.tag, r.strict, r.legacy, fk) IN
@@ -47,6 +48,7 @@ Check(r) ==
   IF r.tag = "" /\ \E tg \in IntTargets : ~IntOk(r, tg) THEN "int"
   ELSE IF r.tag = "" /\ ~BoolOk(r) THEN "bool"
   ELSE IF ~StrOk(r) THEN "str"
+  ELSE IF ~CharOk(r) THEN "char"
   ELSE IF ~AnyOk(r) THEN "any"
   ELSE IF r.tag = "" /\ ~F64Ok(r) THEN "f64"
   ELSE "ok"
